@@ -44,6 +44,10 @@ def signature(sp, project):
         if ev is not None:
             conds.append(("<input exhausted>", ev))
             continue
+        # one spelling per comparison outcome: `!(a <= b)` is `b < a`, `!(a < b)` is `b <= a`, `!(a == b)` is `a != b`
+        if not pol and t[0] == "bin" and t[1] in ("<", "<=", "==", "!="):
+            t, pol = {"<": mk_bin("<=", t[3], t[2]), "<=": mk_bin("<", t[3], t[2]),
+                      "==": mk_bin("!=", t[2], t[3]), "!=": mk_bin("==", t[2], t[3])}[t[1]], True
         conds.append((repr(strip_lines(t)), pol))
     state = []
     for k, v in sp.state.items():
